@@ -468,7 +468,7 @@ def area_cache(rep):
     rep.note("Block.getArea cache design implemented by the code under test: %s" % chosen)
     env = {"C02_AREAKEY": chosen}
     if not _SELFTEST:
-        res = run_tlc("AreaCache", "AreaCache_mc.cfg", env, workers=1, want_prints=False, extra=("-continue",))
+        res = run_tlc("AreaCache", "AreaCache_mc.cfg", env, workers=1, want_prints=False, coverage=False, extra=("-continue",))
         rep.add_tlc("exhaustive:AreaCache_mc.cfg[%s]" % chosen, res)
         what = {
             "AnswerIsWhatWasAsked": "Block.getArea(cold=True) returns the cached hot area after getArea() (and vice versa): the cache key ignores `cold`",
@@ -582,17 +582,26 @@ def run(rep, tier, seed):
     if not _SELFTEST:
         for cfg in mc:
             cfg = cfg % ("_thorough" if thorough else "") if "%s" in cfg else cfg
-            res = run_tlc("Inventory_mc", cfg, env, want_prints=False)
+            # TLC's coverage instrumentation costs a factor ten here: the deep run goes without it, non-vacuity comes from the same
+            # configuration run one edit deep with one worker and the specification's own per-action counters (every action taken
+            # from the initial state is taken in the deep run too)
+            res = run_tlc("Inventory_mc", cfg, env, want_prints=False, coverage=False)
             rep.add_tlc("exhaustive:" + cfg, res, constants_of(cfg))
             if res.violation:
                 rep.violation("tlc:" + res.violation["name"], "TLC: %s violated in Inventory (%s)" % (res.violation["name"], cfg),
                               {"direction": "tlc", "cfg": cfg, "trace": res.violation["trace"][:20000]})
+            cov = run_tlc("Inventory_mc", cfg, dict(env, C02_MAXLEVEL="2"), workers=1, coverage=False)
+            rep.add_tlc("action counts (one edit deep, one worker):" + cfg, cov)
+            counts = [p["counts"] for p in cov.prints if isinstance(p, dict) and "counts" in p]
+            if not counts:
+                raise tlc.MachineryError("no action counts printed by " + cfg)
+            rep.tlc[-1]["actions"] = dict(zip(ACTIONS, counts[0]))
             skip = ("BUpdateN", "BSetNs", "BScale", "BSetMassFracs", "BSetMasses") if "geom" in cfg else ()  # narrow by construction
-            never = [a for a in ACTIONS if a not in skip and res.coverage.get(a, (0, 0))[1] == 0]
+            never = [a for a, c in zip(ACTIONS, counts[0]) if a not in skip and c == 0]
             if never:
                 raise tlc.MachineryError("vacuous: actions never taken in %s: %s" % (cfg, never))
         # the clauses that depend on the design alternatives, for the designs the code implements
-        res = run_tlc("Inventory_mc", "Inventory_clauses.cfg", env, workers=1, want_prints=False, extra=("-continue",))
+        res = run_tlc("Inventory_mc", "Inventory_clauses.cfg", env, workers=1, want_prints=False, coverage=False, extra=("-continue",))
         rep.add_tlc("exhaustive:Inventory_clauses.cfg%s" % json.dumps(env), res)
         what = {
             "CutLeafMassesAgree": ("on a component of a block cut by symmetry lines getMasses()[n] and getNumberOfAtoms(n) are Sym times "
